@@ -35,3 +35,15 @@ impl VRead for VEmpty {
     #[verifier::external_body]
     fn read(&mut self, buf: &mut [u8]) -> (r: std::io::Result<usize>) { Ok(0) }
 }
+
+/// str::as_bytes
+#[verifier::external_body]
+pub fn vstr_as_bytes_str(s: &str) -> (r: &[u8])
+    ensures r@ == str_bytes(s@),
+{ s.as_bytes() }
+
+/// &String -> &str (deref)
+#[verifier::external_body]
+pub fn vstring_as_str(s: &String) -> (r: &str)
+    ensures r@ == s@,
+{ s.as_str() }
